@@ -36,6 +36,9 @@ func decodeRec(b []byte) (*ops.Recorder, error) {
 func checkDiff(c DiffCase) error {
 	rec, err := decodeRec(c.Bytes)
 	p := spec.Parse(c.Bytes)
+	if errNil := decode.Decode(nil, append([]byte{}, c.Bytes...)); (errNil == nil) != (err == nil) {
+		return harness.Violatef("c03/no-destination-verdict", "Decode without a Destination says %v, with one %v", errNil, err)
+	}
 	if (err == nil) != p.OK {
 		if p.OK {
 			return harness.Violatef("c03/rejects-well-formed", "decoder rejects (%v) a string the specification accepts", err)
